@@ -4,6 +4,7 @@ import (
 	"encoding/json"
 	"os"
 	"path/filepath"
+	"sort"
 	"strings"
 
 	"github.com/modernizing/coca/cmd"
@@ -130,16 +131,32 @@ func bsCli(c map[string]json.RawMessage, dir string) (interface{}, error) {
 			return map[string]interface{}{"reportUnreadable": err.Error()}, nil
 		}
 		out := map[string][]finding{}
+		ext := []string{}
 		for k, v := range sorted {
 			if fs := conv(v, dir); len(fs) > 0 {
 				out[k] = fs
 			}
+			ext = append(ext, extras(v, dir)...)
 		}
-		return map[string]interface{}{"sorted": out}, nil
+		sort.Strings(ext)
+		return map[string]interface{}{"sorted": out, "extra": ext}, nil
 	}
 	var list []bs_domain.BadSmellModel
 	if err := json.Unmarshal(b, &list); err != nil {
 		return map[string]interface{}{"reportUnreadable": err.Error()}, nil
 	}
-	return map[string]interface{}{"list": conv(list, dir)}, nil
+	return map[string]interface{}{"list": conv(list, dir), "extra": extras(list, dir)}, nil
+}
+
+// the kinds outside the modelled decision layer (refusedBequest, graphConnectedCall), as the command reports them in a fresh
+// process: compared between runs (C08), not judged by the model
+func extras(ms []bs_domain.BadSmellModel, strip string) []string {
+	out := []string{}
+	for _, m := range ms {
+		if m.Bs == "refusedBequest" || m.Bs == "graphConnectedCall" {
+			out = append(out, m.Bs+" | "+strings.TrimPrefix(m.File, strip+string(os.PathSeparator))+" | "+m.Line+" | "+m.Description)
+		}
+	}
+	sort.Strings(out)
+	return out
 }
